@@ -26,6 +26,7 @@ import (
 type poolWorld struct {
 	mu       sync.Mutex
 	conns    []*simnet.Conn
+	ownAfter map[*simnet.Conn]int // calls after close made by the request that closed the connection itself
 	events   []string       // ordered: "<holder>:<what>[:<detail>]"
 	queryOn  map[string]int // query id -> connection index that saw it
 	maxOpen  int
@@ -138,10 +139,12 @@ const (
 	hPoolPing
 	hTwoQueries
 	hStaleRelease
+	hPoolPingFail
+	hPoolDoFail
 	nHolderProgs
 )
 
-var holderNames = [nHolderProgs]string{"ok", "exception", "transport-error", "cancelled", "double-release", "pool.Do", "pool.Ping", "two-queries", "stale-release-after-reacquire"}
+var holderNames = [nHolderProgs]string{"ok", "exception", "transport-error", "cancelled", "double-release", "pool.Do", "pool.Ping", "two-queries", "stale-release-after-reacquire", "pool.Ping-on-broken-transport", "pool.Do-on-broken-transport"}
 
 type poolScn struct {
 	maxConns int
@@ -176,7 +179,7 @@ func (s poolScn) id() string {
 func bodyPool(s poolScn) Body {
 	return func() Outcome {
 		name := "C11"
-		w := &poolWorld{queryOn: map[string]int{}, maxConns: s.maxConns, closeErr: s.closeErr}
+		w := &poolWorld{queryOn: map[string]int{}, ownAfter: map[*simnet.Conn]int{}, maxConns: s.maxConns, closeErr: s.closeErr}
 		ctx := context.Background()
 		lifetime, idle, period := s.lifetime, s.idleTime, s.period
 		if lifetime == 0 {
@@ -233,6 +236,51 @@ func bodyPool(s poolScn) Body {
 				var perr error
 				vsched.Quiet(func() { perr = p.Ping(ctx) })
 				w.ev("%s:poolping-done:%s", h, errClass(perr))
+				return
+			}
+			if prog == hPoolPingFail || prog == hPoolDoFail {
+				// the transport of every open connection breaks while it is idle; the next pool-level
+				// request fails on its first write (the client closes itself); whoever acquires next
+				// must get a working connection
+				var e0, e1 error
+				vsched.Quiet(func() {
+					e0 = p.Ping(ctx) // makes sure an idle connection exists
+					w.mu.Lock()
+					conns := append([]*simnet.Conn{}, w.conns...)
+					w.mu.Unlock()
+					for _, cn := range conns {
+						if !cn.IsClosed() {
+							cn.FailWritesFromNow()
+						}
+					}
+					if prog == hPoolPingFail {
+						e1 = p.Ping(ctx)
+					} else {
+						e1 = p.Do(ctx, ch.Query{QueryID: h + "-q0", Body: "SELECT 1"})
+					}
+					w.mu.Lock()
+					for _, cn := range conns {
+						cn.ClearWriteFault()
+						// what the failing request itself still did on the connection it had just closed
+						// (its own Cancel attempt) is not a reuse by the pool
+						w.ownAfter[cn] = len(cn.AfterClose())
+					}
+					w.mu.Unlock()
+				})
+				w.ev("%s:pool-request-on-broken-transport:%s,%s", h, errClass(e0), errClass(e1))
+				c, aerr := p.Acquire(ctx)
+				if aerr != nil {
+					w.ev("%s:acquire-failed:%v", h, aerr)
+					return
+				}
+				w.ev("%s:acquired", h)
+				derr := do(h, c, h+"-q1", "SELECT 1", ctx)
+				if errors.Is(derr, ch.ErrClosed) {
+					setViol(name+"/acquired-closed-client", fmt.Sprintf("holder %s acquired a client whose first Do returns ErrClosed (after a pool-level request had failed on a broken transport)", h))
+				}
+				w.ev("%s:do:%s", h, errClass(derr))
+				w.ev("%s:release", h)
+				c.Release()
 				return
 			}
 			if prog == hStaleRelease {
@@ -401,7 +449,7 @@ func bodyPool(s poolScn) Body {
 			}
 		}
 		for _, c := range w.conns {
-			if ac := c.AfterClose(); len(ac) > 0 {
+			if ac := c.AfterClose()[w.ownAfter[c]:]; len(ac) > 0 {
 				for _, call := range ac {
 					if strings.HasPrefix(call, "write") {
 						return Outcome{Key: name + "/use-after-destroy", Detail: fmt.Sprintf("a destroyed connection was written to again (%v) | events: %s", ac, strings.Join(w.events, " "))}
@@ -435,7 +483,7 @@ func (w *poolWorld) openConns() int {
 
 // C11 — a pooled connection has one holder; dead or expired ones are never reissued.
 func C11(c *vk.Ctx) {
-	c.Rule("pool scenarios = N in {2, 3} holder threads x MaxConns in {1, 2}, each holder running one program of {Acquire-Do(ok)-Release, Do answered by an exception, Do ending in a transport error, Do with a cancelled context, Release three times, Pool.Do, Pool.Ping, two queries, release-reacquire-release the first handle again (also after the connection went round n acquire-release cycles in between, for every n <= 130)}, optionally a thread calling Pool.Close concurrently; plus health-check scenarios (period 1 s, idle 2 s, lifetime 5 s of fake time), plus scenarios on a transport whose Close tears the connection down but returns an error. The real chpool + puddle (instrumented at API granularity) + ch.Dial run under the scheduler; what a holder does on its own connection is a quiet region. All interleavings of the pool-level steps up to the preemption bound (quick 1, thorough 2). Oracle: never two holders of one connection, a connection released broken is never acquired again and never written to, open connections <= MaxConns at every dial, no panic on repeated Release, nothing acquired at the end, after Close every dialled connection is closed, idle connections are destroyed by the health check. distinct_nontrivial = executions.")
+	c.Rule("pool scenarios = N in {2, 3} holder threads x MaxConns in {1, 2}, each holder running one program of {Acquire-Do(ok)-Release, Do answered by an exception, Do ending in a transport error, Do with a cancelled context, Release three times, Pool.Do, Pool.Ping, Pool.Ping / Pool.Do on a transport that broke while the connection was idle followed by Acquire-Do-Release, two queries, release-reacquire-release the first handle again (also after the connection went round n acquire-release cycles in between, for every n <= 130)}, optionally a thread calling Pool.Close concurrently; plus health-check scenarios (period 1 s, idle 2 s, lifetime 5 s of fake time), plus scenarios on a transport whose Close tears the connection down but returns an error. The real chpool + puddle (instrumented at API granularity) + ch.Dial run under the scheduler; what a holder does on its own connection is a quiet region. All interleavings of the pool-level steps up to the preemption bound (quick 1, thorough 2). Oracle: never two holders of one connection, a connection released broken is never acquired again and never written to, open connections <= MaxConns at every dial, no panic on repeated Release, nothing acquired at the end, after Close every dialled connection is closed, idle connections are destroyed by the health check. distinct_nontrivial = executions.")
 	quick := c.Quick()
 	bound := 1
 	if !quick {
@@ -451,6 +499,7 @@ func C11(c *vk.Ctx) {
 		}
 		scns = append(scns, poolScn{maxConns: 2, progs: []int{hOK, hPoolDo}})
 		scns = append(scns, poolScn{maxConns: 1, progs: []int{hStaleRelease}}, poolScn{maxConns: 1, progs: []int{hStaleRelease, hOK}})
+		scns = append(scns, poolScn{maxConns: 1, progs: []int{hPoolPingFail}}, poolScn{maxConns: 1, progs: []int{hPoolDoFail}}, poolScn{maxConns: 1, progs: []int{hPoolPingFail, hOK}}, poolScn{maxConns: 1, progs: []int{hPoolDoFail, hOK}})
 		scns = append(scns, poolScn{maxConns: 1, progs: []int{hTransport, hPoolDo}, closer: true})
 	} else {
 		for _, mc := range []int{1, 2} {
